@@ -16,6 +16,9 @@ func (w *world) trackedAccounts() map[string]common.Address {
 	for _, r := range w.relayers {
 		m[r.Label] = r.Eth
 	}
+	for l, a := range w.extraTracked {
+		m[l] = a
+	}
 	return m
 }
 
@@ -44,7 +47,11 @@ func (w *world) balances(c *xchain) map[string]*big.Int {
 func balDelta(a, b map[string]*big.Int) map[string]string {
 	out := map[string]string{}
 	for k, v := range b {
-		d := new(big.Int).Sub(v, a[k])
+		prev := a[k]
+		if prev == nil {
+			prev = new(big.Int) // account tracked only since this step (contract created by a multicall)
+		}
+		d := new(big.Int).Sub(v, prev)
 		if d.Sign() != 0 {
 			out[k] = d.String()
 		}
@@ -158,6 +165,9 @@ func (w *world) checkDelta(c *xchain, what string, e exp) {
 func (w *world) expectSend(e exp, c *xchain, pk *pkt) {
 	tn := c.tokName(pk.tok)
 	sn := w.acctName(pk.sender)
+	if pk.payer != (common.Address{}) {
+		sn = w.acctName(pk.payer) // multicall: the user funds the contract that is the packets' sender
+	}
 	if pk.amount.Sign() > 0 {
 		e.add(tn, sn, neg(pk.amount))
 		if burns(pk) {
